@@ -330,6 +330,8 @@ func init() {
 			{Name: "PATH-ENDMAX", What: "Record.End returns a running maximum carried through the CIGAR loop (B extension)", Floor: 1, Run: ruleEndMax},
 			{Name: "CIGAR-SPLIT", What: "sam.ParseCigar, splitting a length above 2^28−1: what is left after a piece was taken off is shown positive before an operation is made from it – no zero-length operation for an exact multiple, which would fail IsValid for a valid CIGAR (shared with C06; added after seventh-round seeds C16-h, C06-h)", Floor: 2, Run: ruleCigarSplit},
 			{Name: "LAST-BASE", What: "the index Add methods validate End()-1, the last base, not the exclusive End(): positions up to 2^29-2 are indexable, so an alignment may end at 2^29-1 (shared with C04)", Floor: 2, Run: ruleLastBase},
+			{Name: "BIN-ARG-END", What: "csi.Add computes the bin from [Start(), End()): reg2bin takes an exclusive end, and the last base in its place files a record that ends on the first base of a smallest-level bin one bin too low (added after ninth-round seed C16-i)", Floor: 2, Run: ruleBinArgEnd},
+			{Name: "LEN-SPAN", What: "Record.Len is End() − Start() – the span on the reference, B extension included – not a sum of operation lengths (added after ninth-round seed C16-j)", Floor: 1, Run: ruleLenSpan},
 		},
 		Explanation: "Bin assignment and bin enumeration agree when they use the same (first bin, shift) pair on every level: BIN-PAIRS extracts the pairs of the BAI functions from their SSA (if-chain and level table) and compares them, by value, with the UCSC scheme; BIN-PAIRS-CSI interprets the two CSI recurrences (after checking that they do not depend on the coordinates) for seven geometries. TAB-CONSUME/DEP-ROLES/BIT-CIGAR: the consumption table equals the specification's and each result is driven by the right column.",
 		NotDecided:  "End's max-over-prefix rule with the B extension, IsValid's clipping rules, CSI geometries other than the seven interpreted – value-level.",
@@ -341,6 +343,9 @@ func init() {
 			{Name: "CHUNKS-FRESH", What: "the list a Chunks method sorts and merges in place is built in that call, never an alias of the index's storage (shared with C17)", Floor: 2, Run: ruleChunksFresh},
 			{Name: "REG2BINS-RANGE", What: "csi.reg2bins and internal.OverlappingBinsFor show beg ≥ 0, end beyond beg and end ≤ a power of two before they shift them into uint32 bin numbers that an unsigned counter walks: otherwise csi Chunks(rid, 0, 0), Chunks(rid, 0, MaxInt64) and bam Chunks(ref, -100000010, -100000009) never return (shared with C11; added for defects of the unchanged tree, repaired a0a1615, a8ada74)", Floor: 6, Run: ruleReg2binsRange},
 			{Name: "IDX-SIGN", What: "in the exported index methods that can answer no (an ok or error result) an index or slice bound computed from an integer parameter is shown in range: Chunks with a region that starts before the reference, ReferenceStats for a reference the index does not have (shared with C11; defects of the unchanged tree, repaired cf18b3c, d6ea7d4)", Floor: 2, Run: ruleIdxSign},
+			{Name: "INTERVAL-LIMIT", What: "a bound on the linear index's length in readIntervals admits all 2^29/16384 tiles: an index with a record in the last tile can be read back (shared with C15; added after ninth-round seed C04-i)", Floor: 1, Run: ruleIntervalLimit},
+			{Name: "SORTED-SETTER", What: "the sorted flag Chunks' binary search relies on is set to true only by a function that sorts the bins by number (shared with C15; added after ninth-round seed C04-j: csi MergeChunks set it after sorting chunks only)", Floor: 4, Run: ruleSortedSetter},
+			{Name: "BIN-ARG-END", What: "csi.Add hands reg2bin the record's exclusive End(), not its last base (shared with C16)", Floor: 2, Run: ruleBinArgEnd},
 			{Name: "STRATEGY-BIND", What: "index.Adjacent – what every Chunks answer goes through – is the function adjacent that MERGE-STEP examines (shared with C17)", Floor: 3, Run: ruleStrategyBind},
 			{Name: "LAST-BASE", What: "internal.(*Index).Add and csi.(*Index).Add validate the record's last base, End()-1, with the predicate on 0-based positions, not the exclusive End(): a record on the last base the index can hold is accepted (shared with C16; added for a defect of the unchanged tree)", Floor: 2, Run: ruleLastBase},
 			{Name: "STATS-BLIND", What: "no Chunks method (bam, internal, csi, tabix; through their callees) reads the reference statistics: a query is answered from bins and intervals alone (added after seventh-round seed C04-h: an early-out on Stats.Mapped == 0 loses references that hold only placed unmapped reads)", Floor: 4, Run: ruleStatsBlind},
